@@ -41,10 +41,12 @@ def observed(family, nrandom, seed, want, sentinels=True):
     return fw.cached(key, build), gen
 
 
-def write_obs_file(cases, path, fields=("pid", "prog", "obs")):
+def write_obs_file(cases, path, fields=("pid", "prog", "obs"), extra=None):
     os.makedirs(os.path.dirname(path), exist_ok=True)
+    doc = {"cases": [{k: c[k] for k in fields} for c in cases]}
+    doc.update(extra or {})
     with open(path, "w") as fh:
-        json.dump({"cases": [{k: c[k] for k in fields} for c in cases]}, fh)
+        json.dump(doc, fh)
     return path
 
 
